@@ -672,7 +672,36 @@ def r5_arrays(prog, rep: Report, ss: Cls):
             if isinstance(inner, ast.Call) and src(inner.func) == "zip" and \
                     [src(a) for a in inner.args] == [f"{it.self_name}.starts", f"{it.self_name}.ends"]:
                 ok = True
-    rep.check("C10.R5", it, "iter", ok, "yields (start, end) from zip(starts, ends)",
+    if not ok:
+        # the same question on symbolic values: what is yielded (or handed out as the iterator), element by element
+        from ..paths import elementwise, strip_versions, summaries
+        S_, E_ = ("attr", ("self",), "starts"), ("attr", ("self",), "ends")
+        ps_, un_ = summaries(prog, it, ss)
+        outs = []
+        for p_ in ps_:
+            for e_ in p_.events:
+                if e_[0] == "yield":
+                    outs.append(("item", strip_versions(e_[1])))
+            if p_.exit == "return" and p_.value != ("c", None):
+                outs.append(("iterable", strip_versions(p_.value)))
+        node_yf = [n for n in walk_own(it.node) if isinstance(n, ast.YieldFrom)]
+        good = []
+        for kind_, t_ in outs:
+            if kind_ == "item" and isinstance(t_, tuple) and t_[0] == "tuple" and len(t_) == 3 and t_[1][0] == "elem" and t_[2][0] == "elem" \
+                    and t_[1][1] == S_ and t_[2][1] == E_ and t_[1][2] == t_[2][2]:
+                good.append(True)
+            elif elementwise(t_) == ("tuple", ("at", S_), ("at", E_)):
+                good.append(True)            # `yield from zip(starts, ends)` / `return iter(zip(starts, ends))`
+            else:
+                good.append(False)
+        if not un_ and good and all(good):
+            ok = True
+        elif not un_ and not outs and node_yf:
+            ok = None
+    if ok is None:
+        rep.unrec("C10.R5", it, "iter", "what __iter__ delegates to is not understood")
+    else:
+      rep.check("C10.R5", it, "iter", ok, "yields (start, end) from zip(starts, ends)",
               "__iter__ does not yield (start, end) pairs index-aligned from starts/ends",
               scenario="iteration swaps start and end or misaligns them: every operator result is built from wrong spans")
 
